@@ -1,10 +1,12 @@
 (* C20: faithful model of
      antismash/common/serialiser.py : AntismashResults.write_to_file, AntismashResults.to_json, dump_records
      antismash/common/json.py       : dumps / _base_convertor (custom-type conversion inside orjson)
-     antismash/main.py              : prepare_output_directory, _ignore_patterns
+     antismash/main.py              : prepare_output_directory, _refusal_reason, _ignore_patterns,
+                                      _run_antismash, run_antismash (the wrapper that sets up logging)
    Part 1 is a trace machine: a world (target file contents, number of logged errors, event trace) is
    threaded through every step in the order the Python code performs them.  Part 2 is a decision function
-   over an abstract directory listing.  No proofs in this file. *)
+   over an abstract directory listing.  Part 3 is the stage order of _run_antismash, part 4 the wrapper
+   run_antismash: refusal test, then the logging set-up, then _run_antismash.  No proofs in this file. *)
 From ASV Require Export Base.
 
 Definition E_Input := 12.   (* AntismashInputError (harness-local code, not in common.ERR) *)
@@ -286,13 +288,22 @@ Fixpoint remove_all (targets : list entry) (entries : list entry) : res unit * l
   end.
 
 (* kind: 0 = the path does not exist, 1 = a directory, anything else = exists but is not a directory.
-   reuse = input_file.endswith(".json").  Result: outcome, kind afterwards, listing afterwards *)
+   reuse = input_file.endswith(".json").
+
+   _refusal_reason(name, input_file), called for a path that exists: true = a reason is returned (the path is
+   not a directory, or the run is fresh and the directory holds something _ignore_patterns does not exempt).
+   It reads the directory and writes nothing.  Since the repair of FC20d it is the one refusal test, used by
+   prepare_output_directory and, before logging is set up, by run_antismash (part 4) *)
+Definition refusal_reason (v : env) (kind : Z) (reuse dmeta : bool) (entries : list entry) : bool :=
+  if negb (kind =? 1) then true
+  else negb reuse
+       && negb (match filter (ignore_patterns v) (list_dir dmeta entries) with [] => true | _ => false end).
+
+(* Result: outcome, kind afterwards, listing afterwards *)
 Definition prepare_output_directory (v : env) (kind : Z) (reuse dmeta : bool) (entries : list entry)
   : res unit * Z * list entry :=
   if kind =? 0 then (Ok tt, 1, [])                                      (* os.mkdir(name) *)
-  else if negb (kind =? 1) then (Err E_Input, kind, entries)
-  else if negb reuse && negb (match filter (ignore_patterns v) (list_dir dmeta entries) with [] => true | _ => false end)
-  then (Err E_Input, kind, entries)
+  else if refusal_reason v kind reuse dmeta entries then (Err E_Input, kind, entries)
   else let '(r, es) := remove_all (glob_region dmeta entries) entries in (r, kind, es).
 
 (* the property: an entry is foreign unless it is the input directory or the log file, i.e. the very path
@@ -413,6 +424,68 @@ Definition pipeline_spec_ok (v : env) (kind : Z) (reuse : bool) (entries : list 
            && forallb (fun e => (20 <=? fst e) && (fst e <=? ST_PREPARE)) evs
       else true).
 
+(* ====================================================================== part 4: run_antismash (wrapper) *)
+
+(* main.run_antismash(sequence_file, options), for a real run (an input is given, list_plugins and
+   check_prereqs_only are off):
+     input_file = sequence_file or options.reuse_results
+     if options.logfile and input_file and not (...):
+         output_dir = options.output_dir or _default_output_directory(input_file)
+         reason = _refusal_reason(output_dir, input_file) if os.path.exists(output_dir) else None
+         if reason: logging.error(reason); raise AntismashInputError(reason)
+     with logs.changed_logging(logfile=options.logfile, ...):
+         try: result = _run_antismash(sequence_file, options)
+         except AntismashInputError as err: logging.error(str(err)); raise
+
+   logs.changed_logging with a log file WRITES before _run_antismash starts: os.makedirs(dirname(logfile)) when
+   that directory is missing, then logging.FileHandler(logfile), which creates the file or opens it for
+   appending.  What that does to the output directory is a parameter of the model (outcome of the set-up, kind
+   and listing of the output directory afterwards): the theorems hold for EVERY such effect.  Without a log
+   file the set-up touches no file *)
+Definition log_effect := Z -> list entry -> res unit * Z * list entry.
+
+(* the refusal test of the wrapper: only with a log file, only for a path that exists *)
+Definition early_refusal (v : env) (kind : Z) (reuse dmeta : bool) (entries : list entry) : bool :=
+  lg_given v && negb (kind =? 0) && refusal_reason v kind reuse dmeta entries.
+
+(* except errors.AntismashInputError as err: logging.error(str(err)); raise *)
+Definition log_input_error (out : world * res Z * Z * list entry) : world * res Z * Z * list entry :=
+  let '(w, r, kd, es) := out in
+  match r with
+  | Err k => if k =? E_Input then (log_error w, r, kd, es) else out
+  | Ok _ => out
+  end.
+
+(* run_antismash of part 3 is main._run_antismash; this is main.run_antismash *)
+Definition outer_run_antismash (setup : log_effect) (pl : pplan) (v : env) (kind : Z) (reuse dmeta : bool)
+  (entries : list entry) (records : list rspec) (results : list (list mspec)) (hk : Z) (w : world)
+  : world * res Z * Z * list entry :=
+  if early_refusal v kind reuse dmeta entries
+  then (log_error w, Err E_Input, kind, entries)          (* refused before anything is set up or written *)
+  else
+    match (if lg_given v then setup kind entries else (Ok tt, kind, entries)) with
+    | (Err k, kind1, entries1) => (w, Err k, kind1, entries1)      (* the set-up itself raises *)
+    | (Ok _, kind1, entries1) =>
+      log_input_error (run_antismash pl v kind1 reuse dmeta entries1 records results hk w)
+    end.
+
+(* the effect of the real set-up on the output directory, as far as the listing can express it (used by the
+   correspondence run, function id 5; the theorems do not depend on it): a log file that does not lie
+   directly in the output directory leaves the listing alone (the harness generates no log file below a
+   sub-directory for function 5); directly inside: a missing output directory is created by os.makedirs and
+   gets the new file; a path that is not a directory makes FileHandler raise NotADirectoryError; an entry that
+   carries the log file's name is appended to (a directory of that name: IsADirectoryError); otherwise the
+   new file appears, id -1 (narrowing: a new log file has a visible name that is not region-like) *)
+Definition log_entry (v : env) : entry := mkE (-1) (p_base (lg_path v)) true false false false.
+Definition log_setup (v : env) : log_effect := fun kind entries =>
+  if negb (p_dir (lg_path v) =? 0) then (Ok tt, kind, entries)
+  else if kind =? 0 then (Ok tt, 1, [log_entry v])
+  else if negb (kind =? 1) then (Err E_Other, kind, entries)
+  else match find (fun e => en_name e =? p_base (lg_path v)) entries with
+       | Some e => if en_isdir e then (Err E_Other, kind, entries) else (Ok tt, kind, entries)
+       | None => (Ok tt, kind, log_entry v :: entries)
+       end.
+
 (* ====================================================================== encoding *)
 Definition dM : dec mspec := fun l =>
   match l with a :: b :: c :: d :: e :: f :: g :: r => Some (mkM a b c d e f g, r) | _ => None end.
@@ -503,7 +576,16 @@ Definition run_C20 (fn : Z) (l : list Z) : list Z :=
            eRes (fun rc : Z => [rc]) r ++ [kind'] ++ eList (fun x => [x]) (ids after)
            ++ [cstate (w_file w); w_log w] ++ eList eEvent (pipeline_events (w_trace w))
          | _ => bad_input end
-  | 14 => match dPair dPipeInput (dPair (dPair (dPair (dPair dBool dZ) (dList dZ)) dZ) (dList dEvPair)) l with
+  | 5 => match dPipeInput l with
+         | Some (pl, v, kind, reuse, dmeta, es, hk, records, results, []) =>
+           let entries := number_entries 0 es in
+           let '(w, r, kind', after) :=
+             outer_run_antismash (log_setup v) pl v kind reuse dmeta entries records results hk (initial_world hk) in
+           eRes (fun rc : Z => [rc]) r ++ [kind'] ++ eList (fun x => [x]) (ids after)
+           ++ [cstate (w_file w); w_log w] ++ eList eEvent (pipeline_events (w_trace w))
+         | _ => bad_input end
+  | 14 | 15 =>
+         match dPair dPipeInput (dPair (dPair (dPair (dPair dBool dZ) (dList dZ)) dZ) (dList dEvPair)) l with
          | Some (pl, v, kind, reuse, dmeta, es, hk, records, results, (ok0, kind', after, state', evs), []) =>
            let entries := number_entries 0 es in
            eBool (pipeline_spec_ok v kind reuse entries records results hk ok0 kind' after state' evs) ++ [1; 0]
